@@ -33,7 +33,13 @@ MC_B3 == << V("x", "exo", << >>, 0, ""),
             V("d", "sim", << "L1", "L2" >>, 0, ""),
             V("g", "sim", << "k", "k" >>, 1, "") >>
 
-BP(b) == CASE b = "B1" -> MC_B1 [] b = "B2" -> MC_B2 [] b = "B3" -> MC_B3
+(* B4: the only lag reads an exogenous path (its source is never appended to) *)
+MC_B4 == << V("x", "exo", << >>, 0, ""),
+            V("Lx", "lag", << >>, 0, "x"),
+            V("v", "sim", << "x", "Lx" >>, 1, "") >>
+
+BP(b) == CASE b = "B1" -> MC_B1 [] b = "B2" -> MC_B2 [] b = "B3" -> MC_B3 [] b = "B4" -> MC_B4
+BPs == {"B1", "B2", "B3", "B4"}
 
 PathVals == << 3, 1, 4, 1, 5, 9, 2, 6, 5, 3 >>
 Path(n) == SubSeq(PathVals, 1, n)
@@ -81,18 +87,18 @@ KeepQuick(c) == /\ ExoRejected(c) => (c.ics = << >> \/ (Len(c.ics) > 1 /\ c.icfo
                 /\ ~c.reduce => c.icform # "int"
 
 InitQuick ==
-    \E b \in {"B1", "B2", "B3"}, hw \in HW(0..3), x \in ExoQuick, r \in BOOLEAN :
+    \E b \in BPs, hw \in HW(0..3), x \in ExoQuick, r \in BOOLEAN :
         \E ic \in ICChoices(BP(b)) :
             LET c == Mk(b, hw.h, hw.w, x, ic, r) IN KeepQuick(c) /\ StartWith(c)
 
 InitThorough ==
-    \E b \in {"B1", "B2", "B3"}, hw \in HW(0..5), x \in ExoThorough, r \in BOOLEAN :
+    \E b \in BPs, hw \in HW(0..5), x \in ExoThorough, r \in BOOLEAN :
         \E ic \in ICChoices(BP(b)) :
             StartWith(Mk(b, hw.h, hw.w, x, ic, r))
 
 NoConfigs == {}
 
-ASSUME \A b \in {"B1", "B2", "B3"} : WellOrdered(AllVars([vars |-> BP(b)]))
+ASSUME \A b \in BPs : WellOrdered(AllVars([vars |-> BP(b)]))
 
 Terminal == phase \in {"done", "reject"}
 Emit == Terminal => PrintT(<< "BEH", ToJson([cfg |-> cfg, outcome |-> phase, err |-> err]) >>)
